@@ -202,12 +202,13 @@ def main():
             fields = field_info(c)
             nopt = sum(1 for f in fields if not f[2])
             masks = list(range(2 ** nopt)) if nopt <= req.get("max_all", 5) else [0, 2 ** nopt - 1] + [1 << j for j in range(nopt)] + [rng.getrandbits(nopt) for _ in range(req.get("samples", 6))]
-            for vi, mask in enumerate(masks):
-                try:
-                    w = gen_model(c, rng, 0, McpBase, variant=vi, optional_mask=mask)
-                    cases.append({"cls": k, "wire": tag(w)})
-                except Exception as e:
-                    cases.append({"cls": k, "wire": tag({}), "generr": "%s: %s" % (type(e).__name__, e)})
+            for rep in range(req.get("reps", 1)):
+                for vi, mask in enumerate(masks):
+                    try:
+                        w = gen_model(c, rng, 0, McpBase, variant=vi + 7 * rep, optional_mask=mask)
+                        cases.append({"cls": k, "wire": tag(w)})
+                    except Exception as e:
+                        cases.append({"cls": k, "wire": tag({}), "generr": "%s: %s" % (type(e).__name__, e)})
         out["cases"] = cases
     elif op == "validate":
         res = []
